@@ -80,6 +80,8 @@ pub struct Compiler {
     scope_index: usize,
     pub filters: Vec<Rc<CompiledFunction>>,
     pub filter_end: Option<Rc<CompiledFunction>>,
+    // first operand that did not fit into its encoding, reported by compile()
+    operand_error: Option<CompileError>,
 }
 
 impl Compiler {
@@ -105,6 +107,7 @@ impl Compiler {
             scope_index: 0,
             filters: Vec::new(),
             filter_end: None,
+            operand_error: None,
         }
     }
 
@@ -219,10 +222,29 @@ impl Compiler {
 
     // Helper to emit instruction and return its starting position
     pub fn emit(&mut self, op: Opcode, operands: &[usize], line: usize) -> usize {
+        self.check_operands(op, operands, line);
         let ins = definitions::make(op, operands, line);
         let pos = self.add_instruction(ins);
         self.set_last_instruction(op, pos);
         pos
+    }
+
+    // An operand that does not fit into its one or two bytes would be truncated
+    // by make() and the program silently miscompiled; remember the first such
+    // operand so that compile() can reject the program instead.
+    fn check_operands(&mut self, op: Opcode, operands: &[usize], line: usize) {
+        for (&operand, &width) in operands.iter().zip(definitions::operand_widths(op)) {
+            let max = if width == 1 { 0xFF } else { 0xFFFF };
+            if operand > max && self.operand_error.is_none() {
+                self.operand_error = Some(CompileError::new(
+                    &format!(
+                        "program too large: operand {} of {:?} exceeds {}",
+                        operand, op, max
+                    ),
+                    line,
+                ));
+            }
+        }
     }
 
     fn load_symbol(&mut self, sym: Rc<Symbol>, line: usize) {
@@ -307,6 +329,7 @@ impl Compiler {
     fn change_operand(&mut self, op_pos: usize, operand: usize) {
         let op = Opcode::from(self.get_curr_instructions().code[op_pos]);
         let line = self.get_curr_instructions().lines[op_pos];
+        self.check_operands(op, &[operand], line);
         let new_instruction = definitions::make(op, &[operand], line);
         // lines remain the same
         self.replace_instruction(op_pos, &new_instruction.code);
@@ -322,6 +345,9 @@ impl Compiler {
 
     pub fn compile(&mut self, pgm: Program) -> Result<(), CompileError> {
         self.compile_program(pgm)?;
+        if let Some(err) = self.operand_error.take() {
+            return Err(err);
+        }
         Ok(())
     }
 
